@@ -1119,7 +1119,7 @@ fn run_shell_case(tag: &str, script: &str) {
 /// (tag, script template); `%` is replaced by a per-instance suffix.  Tag `clean` = no catalogued
 /// divergence is involved.  Only built-ins of the real binary are used (`alias` without aliases is
 /// the do-nothing regular built-in, `typeset -p` the printer).
-const FRAGMENTS: [(&str, &str); 44] = [
+const FRAGMENTS: [(&str, &str); 62] = [
     ("clean", "x%=one; typeset -p x% >o%; x%=two; typeset -p x% >o%; read -r l <o%; typeset -p l"),
     ("clean", "x%=ap; typeset -p x% >>a%; x%=bp; typeset -p x% >>a%; umask >>a%"),
     ("clean", "set -C; alias >f1; s=$?; typeset -p s; typeset -p s >|f1; alias >n%; set +C; read -r l <f1; typeset -p l"),
@@ -1164,6 +1164,24 @@ const FRAGMENTS: [(&str, &str); 44] = [
     ("emfile", "(ulimit -n 3; exec 5>nf%); s=$?; typeset -p s"),
     ("opendir", "for i in *; do :; done; for i in d1/*; do :; done; alias <&3; s=$?; typeset -p s; alias <&4; s=$?; typeset -p s"),
     ("opendir", "(ulimit -n 5; for i in d1/*; do typeset -p i; done; for i in d1/*; do typeset -p i; done; for i in d1/*; do typeset -p i; done)"),
+    ("clean", "x%='p q'; typeset -p x% >w%; typeset -p x% >>w%; while read -r a b; do typeset -p a b; done <w%"),
+    ("clean", "( (x%=in; typeset -p x% >n%); read -r l <n%; typeset -p l >>n% ); while read -r l; do typeset -p l; done <n%"),
+    ("clean", "x%=keep; exec @F>&1 >ex%; typeset -p x%; exec >&@F @F>&-; read -r l <ex%; typeset -p l"),
+    ("clean", "for i in 1 2 3; do typeset -p i >>l%; done; while read -r a; do typeset -p a; done <l%; alias >l%; read -r a <l%; s=$?; typeset -p s"),
+    ("clean", "IFS=:; x%=a:b:c; for i in $x%; do typeset -p i; done >i%; unset IFS; read -r l <i%; typeset -p l"),
+    ("clean", "readonly r%=1; (r%=2) 2>er%; s=$?; typeset -p s"),
+    ("clean", "set -e; (exit 0); x%=alive; typeset -p x%; set +e; (set -e; (exit 7); typeset -p x%); s=$?; typeset -p s"),
+    ("clean", "x%=@W; case $(typeset -p x%) in *@W*) typeset -p x% >c1%;; *) typeset -p PWD >c2%;; esac"),
+    ("clean", "umask @U; alias >um%; umask >umo%; read -r x% <umo%; typeset -p x%; umask -S; umask 644"),
+    ("clean", "cd d1/dd; alias >deep%; typeset -p PWD; cd ..; typeset -p PWD; for i in *; do typeset -p i; done; cd .."),
+    ("clean", "exec @F<f1; read -r a <&@F; exec @F<&-; read -r b <&@F; s=$?; typeset -p a s"),
+    ("clean", "x%=@W; typeset -p x% >t1%; typeset -p x% @F>t2% >&@F; read -r a <t1%; read -r b <t2%; typeset -p a b"),
+    ("clean", "kill -l 15; kill -l TERM; trap 'typeset -p PWD >>tr%' USR1 USR2; kill -s USR1 $$; kill -s USR2 $$; trap - USR1 USR2"),
+    ("clean", "(exit 3) & (exit 4) & wait; s=$?; typeset -p s; wait $!; s=$?; typeset -p s"),
+    ("clean", "x%=@W; { typeset -p x%; typeset -p x%; } | { read -r a; read -r b; typeset -p a b >pq%; }; while read -r l; do typeset -p l; done <pq%"),
+    ("clean", "y=$( (x%=@W; typeset -p x% >cs2%; typeset -p x%) | { read -r l; typeset -p l; } ); typeset -p y"),
+    ("forkumask", "umask @U; x%=$(alias >cu%; umask); typeset -p x%; umask 644"),
+    ("forkcwd", "cd d1/dd; (alias >deep2%; typeset -p PWD >pw%); cd ../.."),
 ];
 
 fn gen_script(rng: &mut Rng, allow_known: bool) -> (String, String) {
@@ -1186,7 +1204,10 @@ fn gen_script(rng: &mut Rng, allow_known: bool) -> (String, String) {
             tags.push(tag);
         }
         let suffix = format!("{}", parts.len());
-        parts.push(text.replace('%', &suffix));
+        let fd = format!("{}", 3 + rng.below(6));
+        let um = *rng.pick(&["022", "027", "077", "002", "000", "137", "026"]);
+        let word = *rng.pick(&["alpha", "b-c", "x y", "q=r", "tab\there"]);
+        parts.push(text.replace('%', &suffix).replace("@F", &fd).replace("@U", um).replace("@W", &format!("'{word}'")));
     }
     let tag = if tags.is_empty() { "clean".to_string() } else { tags.join("+") };
     (tag, parts.join("\n"))
@@ -1229,11 +1250,11 @@ fn main() {
     // every fragment alone (fixed part of the run)
     for (tag, text) in FRAGMENTS {
         if mine(&mut index) {
-            run_shell_case(tag, &text.replace('%', "0"));
+            run_shell_case(tag, &text.replace('%', "0").replace("@F", "7").replace("@U", "027").replace("@W", "'a b'"));
         }
     }
     let mut rng = Rng::new(opts.seed ^ 0xC19C_19C1);
-    let n_seq = if thorough { 60_000 } else { 2_400 };
+    let n_seq = if thorough { 240_000 } else { 2_400 };
     for i in 0..n_seq {
         let class = if i % 5 < 3 { "clean" } else { CLASSES[1 + (i / 5) % 7] };
         let case = gen_seq(&mut rng, class, thorough);
@@ -1241,7 +1262,7 @@ fn main() {
             run_seq_case(&case);
         }
     }
-    let n_sh = if thorough { 10_000 } else { 300 };
+    let n_sh = if thorough { 24_000 } else { 300 };
     for i in 0..n_sh {
         let (tag, script) = gen_script(&mut rng, i % 4 == 3);
         if mine(&mut index) {
